@@ -280,6 +280,12 @@ unsigned int Wave_Bank::add_sample(const Tag& tag)
 //! Add sample to the waverom in raw format.
 unsigned int Wave_Bank::add_sample(Wave_Bank::Sample header, const std::vector<uint8_t>& sample)
 {
+	if(header.size > sample.size())
+	{
+		error_message = stringf("Sample length (%u) is greater than the sample data (%u bytes)", header.size, (unsigned)sample.size());
+		throw InputError(nullptr, error_message.c_str());
+	}
+
 	// Find duplicates of sample data and selected header parameters if needed
 	int duplicate = find_duplicate(header, sample);
 
